@@ -43,7 +43,9 @@ Definition check_case (c : case) : bool :=
               end
           | None => true            (* deleted: the next pass is a create (not the tail) *)
           end
-      | None => false
+      | None =>
+          (* the first pass's verdict depends on the key order: only membership is checked *)
+          existsb (fun m => tres_eqb (fst m) r1 && list_eqb2 tcall_eqb (snd m) calls1) (tail_all cfg t live ann)
       end
   end.
 
